@@ -19,7 +19,7 @@ def check(ctx):
     import pfhedge.nn.functional as fnl
     g = ctx.gen
     ctx.lean_gate()
-    n = 400 if ctx.tier == "quick" else 6000
+    n = 3000 if ctx.tier == "quick" else 12000
     reqs, metas = [], []
     dt = torch.float64
     for it in range(n):
